@@ -274,8 +274,8 @@ def check(rep, work, vh, gojq, cases, tag, counters, timeout=600):
         rep.count("evaluations")
         v = verdicts.get(rec["id"])
         fam = case.get("fam", "?")
-        if res["obs"].get("panic"):
-            mism.append((case, res, rec, {"v": "panic"}))
+        if res["obs"].get("panic") and not (res.get("lib") or {}).get("panic"):
+            mism.append((case, res, rec, {"v": "panic"}))      # the command crashed where the library did not
             continue
         if v is None or "tlc" in v:
             bump("tlc_" + (v or {}).get("tlc", "missing"))
